@@ -156,7 +156,7 @@ def rule_R3_cells_struct(text, fields, log):
 
 
 def rule_R3_cells_body(text, fields, log):
-    """.f.get() -> .f ; .f.set(e) -> .f = e ; .f.borrow_mut() -> (&mut ..f) ;
+    """.f.get() -> .f (a temporary copy `{ let c = ..f; c }` when a method is called on the result) ; .f.set(e) -> .f = e ; .f.borrow_mut() -> (&mut ..f) ;
     .f.borrow() -> (&..f) for the declared interior-mutability fields.  The
     receiver expression is the maximal dotted path that ends in .f"""
     out = text
@@ -209,6 +209,10 @@ def rule_R3_cells_body(text, fields, log):
             if not mm:
                 break
             new = '%s.%s' % (mm.group(1), f)
+            if re.match(r'\s*\.\s*(?:insert|remove|toggle|set|push|push_back|push_front|pop|pop_front|pop_back|clear|take|replace|extend|truncate|retain|swap|sort|dedup|drain|append|get_or_insert|get_or_insert_with|as_mut|iter_mut|get_mut|entry)\s*\(', out[mm.end():]):
+                # `cell.get().mutator(..)` (insert, remove, set, push, take, ...): the method works on the COPY that `Cell::get` returns, never on the cell's content
+                # (`self.flags.get().insert(F)` changes nothing that is stored): a temporary stands for the copy
+                new = '{ let vx_cp = %s.%s; vx_cp }' % (mm.group(1), f)
             log.append(('R3', mm.group(0), new))
             out = out[:mm.start()] + new + out[mm.end():]
         # borrow / borrow_mut
